@@ -6,7 +6,6 @@ import panic as PN
 from facts import tokens, fmt, short, walk, strip_sites
 
 # thorough tier: release configuration only — the dev-configuration pass reports the path() hand-out under a /dev key and a loop-shape report in merge_new_paths_algo that are not triaged; not registered until they are (DESIGN.md 12.1)
-THOROUGH_CFGS = ["release"]
 CRATES = ["scion_stack", "scion_sdk_utils"]
 
 EXPLANATION = (
@@ -91,7 +90,7 @@ def run(F, R, tier, cfg):
         R.fn(MERGE)
         # loop guard: (kept_existing + kept_new) < target (param#4)
         def loop_pred(tk, o, g):
-            return o[0] == "bin" and o[1] == "Lt" and "param:4" in tokens(o[3]) and "op:Add" in tokens(o[2])
+            return o[0] == "bin" and o[1] == "Lt" and "param:4" in tokens(o[3]) and any(t.startswith("op:Add") for t in tokens(o[2]))
         gs = T.guard_blocks(mb, loop_pred)
         incs = []
         for bi in sorted(mb.live_blocks()):
